@@ -21,7 +21,7 @@
 (* C17) and the logged values are compared with the machine (Conforms..).   *)
 EXTENDS Calculators
 
-CONSTANT Events   \* records [n, kind, route, ecalc, ocalc, ecell, ncl, emode, eorbit, eres, fs]
+CONSTANT Events   \* records [n, kind, route, ecalc, ocalc, ecell, ncl, emode, eorbit, ezref, eres, fs]
                   \* (field names differ from the variables' names on purpose: SANY's
                   \* linter warns once per record literal otherwise)
 
@@ -43,7 +43,7 @@ TChoose ==
   /\ cell0' = IF E.kind = "convert" THEN E.ecell ELSE PerfectOf(E.ecell)
   /\ order0' = IF Trait[E.ecalc].groups THEN GroupPerm(SpeciesOf(E.ecell)) ELSE Identity(Len(E.ecell))
   /\ pc' = "order"
-  /\ UNCHANGED <<order, file, back, outp, result, resid>>
+  /\ UNCHANGED <<order, file, back, outp, result, resid, zr>>
 
 (* kind "read": an input file of the format, emitted by the harness with the *)
 (* atoms in the given order, was read by the interface's reader: no writer  *)
@@ -53,6 +53,12 @@ TOrder ==
     THEN /\ pc = "order" /\ order' = Identity(Len(cell)) /\ pc' = "write"
          /\ UNCHANGED <<calc, cell, phase, file, back, outp, result, aux>>
     ELSE Order
+
+(* the reference file of --fz that the harness really supplied (E.ezref); for  *)
+(* kinds other than "perm" the lines follow the writer's order of the machine *)
+TZeroRef ==
+  ZeroRefWith([kind |-> E.ezref.kind, e |-> E.ezref.e,
+               p |-> IF E.ezref.kind = "perm" THEN E.ezref.p ELSE order0])
 
 (* "rt"/"read" events end after Read (pc = "displace"), "forces"/"convert"  *)
 (* events at pc = "done"; Judge then evaluates every Impl.. / Conforms..    *)
@@ -79,7 +85,13 @@ ImplFrame == (AtEndRT /\ Ok /\ Trait[E.ecalc].frame = "asis") => E.eres.frameOK
 ImplForcesNoError == AtEndFS => E.fs.status \in {"built", "refused"}
 ImplForcesPaired == (AtEndFS /\ Trait[E.ecalc].points) => ReqForcesPaired(E.ecell, E.fs)
 ImplForcesPairedSameOrder == (AtEndFS /\ Ok) => ReqForcesPairedSameOrder(E.ecell, E.eres.atoms, E.fs)
-ImplNotRefused == (AtEndFS /\ Ok) => ReqNotRefusedWhenSameOrder(E.ecell, E.eres.atoms, E.fs)
+ImplNotRefused == (AtEndFS /\ Ok /\ E.ezref.kind = "own") => ReqNotRefusedWhenSameOrder(E.ecell, E.eres.atoms, E.fs)
+(* --fz with positions in the output: built only if EVERY atom of the reference agrees, *)
+(* and phonopy's own reference is accepted                                              *)
+ImplZeroRef ==
+  (AtEndFS /\ Ok /\ E.emode.fz /\ Trait[E.ecalc].points) =>
+     /\ ReqZeroRef(cell0, resid, E.fs)
+     /\ ReqZeroRefAccepted(E.ecell, E.eres.atoms, cell0, resid, E.fs)
 (* the displacements written to FORCE_SETS are the dataset's *)
 ImplDisplacementsKept == (AtEndFS /\ E.fs.status = "built") => E.fs.dispOK
 (* WIEN2k symmetric scf: forces of all atoms are recovered *)
@@ -97,6 +109,7 @@ TInvOrder == InvOrder
 TInvForcesPaired == InvForcesPaired
 TInvConvert == InvConvertCrystal /\ InvConvertible
 TInvSym == InvSymPaired
+TInvZeroRef == InvZeroRef
 
 SameAtoms(a, b, withmom) ==
   /\ Len(a) = Len(b)
@@ -110,13 +123,13 @@ ConformsForces ==
 JudgeNames == <<"ImplNoError", "ImplSameCrystal", "ImplSameMoments", "ImplOrder", "ImplLattice", "ImplFrame",
                 "ImplForcesNoError", "ImplForcesPaired", "ImplNotRefused", "ConformsOrder", "ConformsForces",
                 "ImplForcesPairedSameOrder", "ImplDisplacementsKept", "ImplSymPaired", "ImplConvertible",
-                "ImplConvertCrystal">>
+                "ImplConvertCrystal", "ImplZeroRef">>
 Holds(i) ==
   CASE i = 1 -> ImplNoError [] i = 2 -> ImplSameCrystal [] i = 3 -> ImplSameMoments [] i = 4 -> ImplOrder
     [] i = 5 -> ImplLattice [] i = 6 -> ImplFrame [] i = 7 -> ImplForcesNoError [] i = 8 -> ImplForcesPaired
     [] i = 9 -> ImplNotRefused [] i = 10 -> ConformsOrder [] i = 11 -> ConformsForces
     [] i = 12 -> ImplForcesPairedSameOrder [] i = 13 -> ImplDisplacementsKept [] i = 14 -> ImplSymPaired
-    [] i = 15 -> ImplConvertible [] i = 16 -> ImplConvertCrystal
+    [] i = 15 -> ImplConvertible [] i = 16 -> ImplConvertCrystal [] i = 17 -> ImplZeroRef
 Verdict == {i \in 1..Len(JudgeNames) : ~Holds(i)}
 
 Judge ==
@@ -125,7 +138,7 @@ Judge ==
   /\ pc' = "judged"
   /\ UNCHANGED <<calc, cell, phase, order, file, back, outp, result, aux>>
 
-TNext == (TChoose \/ TOrder \/ Write \/ Read \/ Convert \/ Collect \/ Agree \/ Judge) /\ UNCHANGED ev
+TNext == (TChoose \/ TOrder \/ Write \/ Read \/ Convert \/ Collect \/ TZeroRef \/ Agree \/ Judge) /\ UNCHANGED ev
 
 TSpec == TInit /\ [][TNext]_tvars
 =============================================================================
